@@ -10,7 +10,18 @@ same expression become the same z3 term.
 """
 import z3
 
+class Inconclusive(BaseException):
+    """engine limit hit on this path (cap, unknown, unsupported op)"""
+
+
 WIDE = 128          # comparisons on terms wider than this are forked lazily
+MODE = 'bv'         # 'bv': exact-width bit-vectors (default) | 'int': z3 Int (linear arithmetic; no bitwise ops)
+
+
+def set_mode(m):
+    global MODE, WIDE
+    MODE = m
+    WIDE = 128 if m == 'bv' else 1 << 30
 
 
 def bits_for(lo, hi):
@@ -71,6 +82,9 @@ def zbv(expr, lo, hi):
 
 def var_domain(n):
     """z3 constraint lo <= v <= hi for a var node"""
+    if MODE == 'int':
+        v = z3.Int(n.a[0])
+        return z3.And(v >= n.lo, v <= n.hi)
     w = n.w
     v = z3.BitVec(n.a[0], w)
     cs = []
@@ -449,9 +463,76 @@ def low(e, n):
     return build(ckey(e, n))
 
 
+class IntModeUnsupported(Inconclusive):
+    pass
+
+
+def to_int(e):
+    """z3 Int term of node e (MODE == 'int')"""
+    z = e._z
+    r = z.get('int')
+    if r is not None:
+        return r
+    op = e.op
+    a = e.a
+    if op == 'c':
+        r = z3.IntVal(a[0])
+    elif op == 'v':
+        r = z3.Int(a[0])
+    elif op == '+':
+        r = to_int(a[0]) + to_int(a[1])
+    elif op == '-':
+        r = to_int(a[0]) - to_int(a[1])
+    elif op == '*':
+        r = to_int(a[0]) * to_int(a[1])
+    elif op == 'neg':
+        r = -to_int(a[0])
+    elif op == 'ref':
+        r = to_int(a[0])
+    elif op == 'ite':
+        r = z3.If(a[0], to_int(a[1]), to_int(a[2]))
+    elif op == 'abs':
+        x = to_int(a[0])
+        r = z3.If(x < 0, -x, x)
+    elif op == '<<':
+        r = to_int(a[0]) * (1 << a[1])
+    elif op == '>>':
+        r = to_int(a[0]) / z3.IntVal(1 << a[1])           # z3 Int div with positive divisor = floor
+    elif op in ('//', '%'):
+        x, y = a
+        if y.op != 'c':
+            raise IntModeUnsupported('division by a symbolic value in int mode')
+        c = y.a[0]
+        if c > 0:
+            r = to_int(x) / z3.IntVal(c) if op == '//' else to_int(x) % z3.IntVal(c)
+        else:
+            # floor semantics for a negative constant divisor: a // c == (-a) // (-c); a % c == -((-a) % (-c))
+            if op == '//':
+                r = (-to_int(x)) / z3.IntVal(-c)
+            else:
+                r = -((-to_int(x)) % z3.IntVal(-c))
+    elif op == '&' and a[1].op == 'c' and a[1].a[0] >= 0 and (a[1].a[0] & (a[1].a[0] + 1)) == 0:
+        r = to_int(a[0]) % z3.IntVal(a[1].a[0] + 1)
+    elif op == '&' and a[0].op == 'c' and a[0].a[0] >= 0 and (a[0].a[0] & (a[0].a[0] + 1)) == 0:
+        r = to_int(a[1]) % z3.IntVal(a[0].a[0] + 1)
+    else:
+        raise IntModeUnsupported('operator %r is not encoded in int mode' % op)
+    z['int'] = r
+    return r
+
+
 def full(e):
-    """exact value as a signed BV of width e.w"""
+    """exact value as a signed BV of width e.w (or the Int term in int mode)"""
+    if MODE == 'int':
+        return to_int(e)
     return low(e, e.w)
+
+
+def neq_const(e, v):
+    """z3 Bool: e != v"""
+    if MODE == 'int':
+        return to_int(e) != v
+    return full(e) != z3.BitVecVal(v, e.w)
 
 
 def eq(a, b):
@@ -459,6 +540,8 @@ def eq(a, b):
         return z3.BoolVal(False)
     if a.op == 'c' and b.op == 'c':
         return z3.BoolVal(a.a[0] == b.a[0])
+    if MODE == 'int':
+        return to_int(a) == to_int(b)
     n = max(a.w, b.w)
     return low(a, n) == low(b, n)
 
@@ -468,6 +551,8 @@ def lt(a, b):
         return z3.BoolVal(True)
     if a.lo >= b.hi:
         return z3.BoolVal(False)
+    if MODE == 'int':
+        return to_int(a) < to_int(b)
     n = max(a.w, b.w)
     return low(a, n) < low(b, n)      # signed
 
@@ -477,6 +562,8 @@ def le(a, b):
         return z3.BoolVal(True)
     if a.lo > b.hi:
         return z3.BoolVal(False)
+    if MODE == 'int':
+        return to_int(a) <= to_int(b)
     n = max(a.w, b.w)
     return low(a, n) <= low(b, n)
 
@@ -486,6 +573,8 @@ def evaluate(e, model):
     if e.op == 'c':
         return e.a[0]
     v = model.eval(full(e), model_completion=True)
+    if MODE == 'int':
+        return v.as_long()
     return v.as_signed_long()
 
 
